@@ -1,15 +1,91 @@
 package c02
 
 import (
-	"errors"
+	"fmt"
 	"time"
+
+	"github.com/jcmturner/gokrb5/v8/keytab"
+	"github.com/jcmturner/gokrb5/v8/messages"
+	"github.com/jcmturner/gokrb5/v8/service"
+
+	"verifsim/engine"
+	"verifsim/refkrb/rcrypto"
+	"verifsim/refkrb/rk"
+	"verifsim/simrt"
+	"verifsim/world"
 )
 
-// verifyWorld presents through the full service.VerifyAPREQ path (tickets from the reference KDC).
-type verifyWorld struct{}
-
-func newVerifyWorld(tp *Tape, base time.Time) (*verifyWorld, error) {
-	return nil, errors.New("verify path not built yet")
+// verifyWorld presents through the full service.VerifyAPREQ path: tickets and authenticators are
+// minted by the reference implementation (the authenticator carries exactly the client time the
+// tape asks for), so that the service's skew test and the replay cache interact as in production.
+type verifyWorld struct {
+	tp       *Tape
+	ktm      *world.KeytabModel
+	settings *service.Settings
+	base     time.Time
 }
 
-func (w *verifyWorld) present(op Op, ct time.Time) string { return "error" }
+func newVerifyWorld(tp *Tape, base time.Time) (*verifyWorld, error) {
+	if !rcrypto.Supported(tp.Etype) {
+		return nil, fmt.Errorf("etype %d", tp.Etype)
+	}
+	w := &verifyWorld{tp: tp, base: base}
+	w.ktm = world.BuildKeytab(tp.RunSeed, []string{"HTTP/s1", "HTTP/s2"}, []string{"SIM.TEST"}, []int{2}, []int{tp.Etype})
+	kt := keytab.New()
+	if err := kt.Unmarshal(w.ktm.Bytes()); err != nil {
+		return nil, err
+	}
+	w.settings = service.NewSettings(kt, service.MaxClockSkew(time.Duration(tp.SkewS)*time.Second), service.DecodePAC(false))
+	return w, nil
+}
+
+// present mints an AP-REQ of op.Client for HTTP/op.Svc whose authenticator is stamped ct and
+// hands it to the real verifier; the answer is fresh | replay | skew | error.
+func (w *verifyWorld) present(op Op, ct time.Time) string {
+	et := w.tp.Etype
+	svc := "HTTP/" + op.Svc
+	ent := w.ktm.Select([]string{"HTTP", op.Svc}, "SIM.TEST", 2, int32(et))
+	if ent == nil {
+		return "error"
+	}
+	r := simrt.Rand()
+	sess := rk.EncryptionKey{Etype: int32(et)}
+	sess.Value, _ = rcrypto.RandomToKey(et, r.Bytes(rcrypto.SeedSize(et)))
+	start := w.base.Add(-time.Hour).Truncate(time.Second)
+	etp := rk.EncTicketPart{Flags: rk.Bit(rk.FlagInitial), Key: sess, CRealm: "SIM.TEST", CName: rk.ParseName(op.Client), TrType: 1,
+		AuthTime: start, StartTime: &start, EndTime: w.base.Add(400 * time.Hour).Truncate(time.Second)}
+	tenc, err := rk.Seal(ent.Key, rk.KUTicket, etp.EncBytes(), r.Bytes(rcrypto.ConfounderSize(et)), 2, true)
+	if err != nil {
+		return "error"
+	}
+	sec := ct.Truncate(time.Second)
+	au := rk.Authenticator{CRealm: "SIM.TEST", CName: rk.ParseName(op.Client), CTime: sec, Cusec: int(ct.Sub(sec) / time.Microsecond)}
+	aenc, err := rk.Seal(sess, rk.KUAPReqAuth, au.EncBytes(), r.Bytes(rcrypto.ConfounderSize(et)), 0, false)
+	if err != nil {
+		return "error"
+	}
+	ap := rk.APReq{Ticket: rk.Ticket{Realm: "SIM.TEST", SName: rk.ParseName(svc), Enc: tenc}, Auth: aenc}
+	var g messages.APReq
+	if err := g.Unmarshal(ap.EncBytes()); err != nil {
+		return "error"
+	}
+	var ok bool
+	var verr error
+	panicked, _, _ := engine.Guard(func() { ok, _, verr = service.VerifyAPREQ(&g, w.settings) })
+	switch {
+	case panicked:
+		return "error"
+	case ok:
+		return "fresh"
+	}
+	if ke, isK := verr.(messages.KRBError); isK {
+		switch ke.ErrorCode {
+		case 34:
+			return "replay"
+		case 37:
+			return "skew"
+		}
+	}
+	simrt.Logf("unexpected refusal: %v", verr)
+	return "error"
+}
